@@ -12,9 +12,11 @@ from harness.common import exc_name
 
 PID = "C16"
 TITLE = "FillRequest processes the flow in consecutive blocks, however it is driven"
-LEAN_MODULES = ["LenaModel.Props.C16"]
-LEAN_SOURCES = ["LenaModel/Model/C16.lean", "LenaModel/Lemmas/C16.lean", "LenaModel/Lemmas/C16Run.lean",
-                "LenaModel/Lemmas/C16Acc.lean", "LenaModel/Lemmas/C16Yor.lean", "LenaModel/Props/C16.lean"]
+LEAN_MODULES = ["LenaModel.Props.C16", "LenaModel.Props.C16X"]
+LEAN_SOURCES = ["LenaModel/Model/C16.lean", "LenaModel/Model/C16Spec.lean", "LenaModel/Model/C16X.lean",
+                "LenaModel/Lemmas/C16.lean", "LenaModel/Lemmas/C16Run.lean", "LenaModel/Lemmas/C16Acc.lean",
+                "LenaModel/Lemmas/C16Yor.lean", "LenaModel/Lemmas/C16X.lean", "LenaModel/Props/C16.lean",
+                "LenaModel/Props/C16X.lean"]
 DRIVER = "drivers/C16.lean"
 THEOREMS = [
     "Lena.C16.init_bufsize_pos",
@@ -34,35 +36,64 @@ THEOREMS = [
     "Lena.C16.traceOps_requests",
     "Lena.C16.traceOps_sizes",
     "Lena.C16.seq_run_blocks",
+    # specification side as the driver evaluates it
+    "Lena.C16.init_accepts_iff_contract",
+    "Lena.C16.invOps_holds",
+    # extended model (Model/C16X.lean): LenaStopFill, generator objects, FillRequest.reset()
+    "Lena.C16.x_conservative",
+    "Lena.C16.request_raises_only_buffered",
+    "Lena.C16.split_bo_never_raises",
+    "Lena.C16.stopfill_escapes_buffer_input",
+    "Lena.C16.split_stop_prefix",
+    "Lena.C16.reset_only_element",
+    "Lena.C16.reset_mid_block",
+    "Lena.C16.reset_keeps_boundaries",
+    "Lena.C16.atCall_keeps_no_generator",
+    "Lena.C16.atRequest_reports_present",
+    "Lena.C16.eager_evaluation_required",
 ]
 TRUSTED = [
     "Lean 4.33.0 kernel; axioms limited to propext, Classical.choice, Quot.sound (audited by #print axioms on every run)",
-    "hand transcription of FillRequest.__init__/fill/request/_run_fill_compute/_run_run, FillRequestSeq.__init__/request and "
-    "the fill/request branch of Split.run into LenaModel/Model/C16.lean, validated by this correspondence check "
-    "(thorough tier: exhaustive over every request schedule of flows up to length 8; quick tier: up to length 7 + samples)",
-    "itertools.islice / itertools.chain semantics on iterators as transcribed (validated likewise)",
+    "hand transcription of FillRequest.__init__/fill/request/reset/_run_fill_compute/_run_run, FillRequestSeq.__init__/request and "
+    "the fill/request branch of Split.run (also with LenaStopFill) into LenaModel/Model/C16.lean and Model/C16X.lean, validated by "
+    "this correspondence check (thorough tier: exhaustive over every request schedule of flows up to length 8 and every history "
+    "over fill/request()/reset() up to length 5; quick tier: schedules up to length 6, histories up to length 3, + samples)",
+    "the specification side of the theorems (specBlocks/chunks, emitAll over segments, runFillCompute on the filled values, "
+    "invOps, initContract, the recording element) is evaluated by the driver on the same cases and compared with the real code / "
+    "Python references",
+    "itertools.islice / itertools.chain semantics on iterators, and Python generator objects (body runs when iterated), as "
+    "transcribed (validated likewise; the adapter that keeps generator objects against a Python subclass of the real FillRequest)",
     "JSON line protocol encoders (harness/props/c16.py, drivers/C16.lean)",
 ]
 ASSUMPTIONS = [
     "the flow handed to run is an iterator (as Sequence.run guarantees via flow_to_iter); a list would be re-read by islice",
-    "the wrapped element's run reads its whole block and its request/compute/run generators are consumed to the end "
-    "before the next call (as Split.run and FillRequest.run do)",
-    "the wrapped element does not raise (LenaStopFill from a wrapped fill is the subject of C03)",
+    "the wrapped element's run reads its whole block and the generators request()/run() of the ADAPTER are consumed to the end "
+    "before the next call (as Split.run and FillRequest.run do); generator objects of the wrapped ELEMENT are modelled "
+    "(Model/C16X.lean: body runs when iterated)",
+    "the only exception a wrapped element raises is LenaStopFill from fill (modelled in Model/C16X.lean: Split and "
+    "_run_fill_compute with such an element); the theorems of Props/C16.lean are about elements that never raise",
     "a mutable wrapped element is a state threaded through fill/request/reset/run (no aliasing with the flow values)",
-    "real termination is covered by totality of the model functions plus a per-case watchdog on the real code",
+    "real termination is covered by totality of the model functions plus a step watchdog (executed lines of lena code, "
+    "sys.monitoring) and a wall-clock watchdog on the real code",
 ]
 RULE = ("thorough, exhaustive: FillRequest.__init__ for every subset of {run,fill,request,compute,reset} x reset in "
         "{None,True,False} x buffer_input,buffer_output in {None,True,False}^2 x yield_on_remainder x bufsize in {-1,0,1,3}; "
-        "run for wrapped kinds run/map-run/fill-compute/fill-request/fill-request+compute/run+fill-request/FillRequestSeq x "
-        "1-2 results x state-changing request x bufsize 1..5 x buffer mode x reset x yield_on_remainder x flows 0..8; "
+        "run for wrapped kinds run/map-run/fill-compute/fill-request/fill-request+compute/run+fill-request/FillRequestSeq "
+        "(elements before/after: none, functions, Run elements yielding 0..2 values per value) x 1-2 results x state-changing "
+        "request x bufsize 1..5 x buffer mode x reset x yield_on_remainder x flows 0..8; "
         "fill/request: EVERY subset of request points (before each fill, closing request always) of flows 0..8 for kinds "
         "fill-compute/fill-request/run+fill-request x bufsize 1..5 x buffer_input/buffer_output x reset x "
         "yield_on_remainder x 1-2 results x state-changing request; Split bufsize in {1..9,1000,None} around a FillRequest "
-        "branch given as element / tuple / FillRequestSeq, flows 0..8; plus 60000 seeded random schedules for flows 9..40, "
-        "bufsize 1..9. quick (<= 60 s): __init__ with buffer flags in {None,True}^2; run for all flows 0..8 (1-result "
-        "element) and lengths 0,4,7,8 (variants); every subset of request points for flows 0..7 (1-result element) plus "
-        "9000 seeded samples of the rest of the thorough fill/request scope; Split for all flows 0..8 and all three "
-        "forms (1-result, yield_on_remainder off), lengths 0,5,8 as element otherwise. "
+        "branch given as element / tuple / FillRequestSeq, flows 0..8; every history over {fill, request(), reset()} of length "
+        "<= 5 x bufsize 1..4 x modes x flags x {never raising, LenaStopFill from value 2 on (stored or not), from value 4 on}; "
+        "Split (bufsize 1..5,7,None) and _run_fill_compute around an element that stops at value 1/3/5, flows 0..8; plus "
+        "seeded random: 60000 schedules for flows 9..40, 30000 histories of length 4..14 with reset()/LenaStopFill, 20000 "
+        "histories on the adapter that keeps generator objects (Python reference) against Eval.atRequest of the model. "
+        "quick (<= 60 s): __init__ with buffer flags in {None,True}^2; run for all flows 0..8 (1-result "
+        "element) and lengths 0,4,7,8 (variants); every subset of request points for flows 0..6 (1-result element) plus "
+        "12000 seeded samples of the rest of the thorough fill/request scope; histories of length <= 3 exhaustively + 8000 "
+        "random longer ones + 4000 on the generator-keeping adapter; Split for all flows 0..8 and all three "
+        "forms (1-result, yield_on_remainder off), lengths 0,5,8 as element otherwise; 15% of the Split/LenaStopFill cases. "
         "Non-trivial: at least one result yielded or an exception.")
 CASE_TIMEOUT = 5
 
@@ -435,12 +466,21 @@ def _run_impl(case):
     flow = list(range(case["n"]))
     if op == "run":
         try:
-            return {"r": list(fr.run(iter(flow)))}
+            res = {"r": list(fr.run(iter(flow)))}
+            if case.get("n2") is not None:
+                # the same adapter (and element object) runs a second flow
+                res["r2"] = list(fr.run(iter(range(case["n"], case["n"] + case["n2"]))))
+            return res
         except Exception as e:
             return {"e": exc_name(e), "phase": "run"}
     if op == "ops":
         trace = []
         try:
+            # a second adapter of the same class around another element object, left with an unrequested overflow:
+            # adapters must not share state
+            decoy = make_adapter(case)
+            for x in range(-case["bufsize"] - 1, 0):
+                decoy.fill(x)
             for o in _ops_of(case):
                 if o is None:
                     out = list(fr.request())
@@ -528,6 +568,8 @@ def model_requests(case):
     r["op"] = op
     if op == "run":
         r["xs"] = list(range(case["n"]))
+        if case.get("n2") is not None:
+            r["xs2"] = list(range(case["n"], case["n"] + case["n2"]))
     elif op == "ops":
         r["ops"] = _ops_of(case)
     elif op == "split":
@@ -593,6 +635,11 @@ def compare(case, res, replies):
         return f"impl {res['r']} vs block specification of the model {m['spec']}"
     if op == "run" and case["kind"] == "frseq" and m.get("seqspec", m["r"]) != res["r"]:
         return f"impl {res['r']} vs rhs of seq_run_blocks {m['seqspec']}"
+    if op == "run" and "r2" in res:
+        if res["r2"] != m.get("r2"):
+            return f"second run on the same adapter: impl {res['r2']} vs model {m.get('r2')}"
+        if m.get("spec2", m["r2"]) != res["r2"]:
+            return f"second run: impl {res['r2']} vs block specification from the state left {m['spec2']}"
     return None
 
 
@@ -666,6 +713,20 @@ def oracle(case, res):
             return f"run yields {res['r']}, block-by-block reference {ref}"
         if L == 0 and res["r"]:
             return f"run on an empty flow yields {res['r']}"
+        if "r2" in res:
+            # whatever the first flow left in the element: the second flow is cut into its own consecutive blocks
+            n2, k = case["n2"], case["k"]
+            nblocks = n2 // n + (1 if case["yor"] and n2 % n else 0)
+            expect = (n * (n2 // n) + (n2 % n if case["yor"] else 0)) if case["kind"] == "map" else k * nblocks
+            if len(res["r2"]) != expect:
+                return (f"the same adapter run on a second flow of {n2} values (bufsize {n}, yield_on_remainder "
+                        f"{case['yor']}) yields {len(res['r2'])} results {res['r2']}, its blocks give {expect}")
+        if "r2" in res and L % n == 0 and not case["mut"]:
+            # the first flow ended at a block boundary: the blocks of the second run are the following blocks
+            both = ref_run(case, list(range(L + case["n2"])))
+            if res["r"] + res["r2"] != both:
+                return (f"the same adapter run on {flow} and then on {list(range(L, L + case['n2']))} yields "
+                        f"{res['r']} + {res['r2']}, block-by-block reference for the values in turn {both}")
         return None
     if op == "ops":
         return _oracle_ops(case, res, flow)
@@ -709,6 +770,9 @@ def ref_history(case):
     n, k, mut, rst, yor = case["bufsize"], case["k"], case["mut"], bool(case["reset"]), case["yor"]
     out, v, cnt = [], [], 0
     waiting = False
+    stop = case.get("stop")
+    if stop is not None and (case.get("buf") != "bo" or case.get("stores")):
+        return None     # refused values waiting in _buffer_in / taken in before the refusal: no reference
 
     def emit():
         nonlocal v, cnt
@@ -728,6 +792,8 @@ def ref_history(case):
             if waiting:
                 return None
             v = []
+        elif stop is not None and o >= stop:
+            pass        # the element refuses the value (LenaStopFill): it is neither in the element nor counted
         else:
             v = v + [o]
             cnt += 1
@@ -752,7 +818,7 @@ def _oracle_opsx(case, res):
                 return f"_n_count = {cnt} after request() (bufsize {n}, yield_on_remainder {yor}; trace {trace})"
         if raised and (o == "r" or case.get("stop") is None):
             return f"LenaStopFill from call {o!r} although the element never raises / from reset() (trace {trace})"
-    if case.get("stop") is None and ops and ops[-1] is None:
+    if ops and ops[-1] is None:
         outs = [x for t in trace if t[0] is not None for x in t[0]]
         ref = ref_history(case)
         if ref is not None and outs != ref:
@@ -849,7 +915,7 @@ def gen_cases(ctx):
     """A generator (memory-lean; common.py may take only a prefix of the thorough stream when the anchored source
     changed, so the cheap, varied groups come first and the big enumeration of request schedules goes by flow length).
     thorough: the whole scope below, exhaustively, plus seeded long random schedules.
-    quick (<= 60 s): the same generators with the exhaustive scopes cut to flows <= 7 (every request
+    quick (<= 60 s): the same generators with the exhaustive scopes cut to flows <= 6 (every request
     schedule, 1-result element) and seeded samples of the rest of the thorough scope."""
     thorough = ctx.tier == "thorough"
     rng = ctx.rng
@@ -857,7 +923,7 @@ def gen_cases(ctx):
     ctx.notes = (["thorough: the scope of the property's quantifier (flows 0..8, bufsize 1..5, every request schedule, "
                   "every flag combination, Split bufsizes) is enumerated completely; only the schedules for flows "
                   "9..40 and the long histories with reset()/LenaStopFill are sampled"] if thorough else
-                 ["quick: every request schedule of flows 0..7 (1-result element) enumerated; flows of length 8, "
+                 ["quick: every request schedule of flows 0..6 (1-result element) enumerated; flows of length 7 and 8, "
                   "the 2-result / state-changing elements and the histories with reset()/LenaStopFill sampled — "
                   "the thorough tier enumerates them"])
     # --- __init__ ---------------------------------------------------------------------------
@@ -894,6 +960,24 @@ def gen_cases(ctx):
                                             yield dict(c, pre=pre, post=post)
                                     else:
                                         yield c
+    # --- the same adapter runs two flows --------------------------------------------------------
+    for kind in KINDS_RUN:
+        for mut in ((False, True) if thorough else (False,)):
+            if kind == "map" and mut:
+                continue
+            for hr, reset in _reset_opts(kind):
+                for n in range(1, 4):
+                    for yor in (False, True):
+                        for buf in (("bi", "bo", "none") if yor else ("bi", "bo")):
+                            for L in (0, n, 2 * n, n + 1):
+                                for n2 in (n, n + 1):
+                                    if not thorough and (L + n2 + n) % 2:
+                                        continue
+                                    c = _base(kind, 1, mut, hr, n, buf, reset, yor)
+                                    c.update(op="run", n=L, n2=n2)
+                                    if kind == "frseq":
+                                        c.update(pre=0, post=0)
+                                    yield c
     # --- _run_fill_compute / Split with an element that stops accepting values -------------------
     for kind in ("fc", "fr"):
         for reset in (True, False):
@@ -969,8 +1053,8 @@ def gen_cases(ctx):
                                         c.update(op="split", form=form, m=m, n=L)
                                         yield c
     # --- fill/request: every subset of request points, by flow length ---------------------------
-    # thorough: flows 0..8, all element variants.  quick: flows 0..7 for the 1-result element; the rest of the
-    # thorough scope (flows of length 8, 2-result / state-changing request) is sampled below.
+    # thorough: flows 0..8, all element variants.  quick: flows 0..6 for the 1-result element; the rest of the
+    # thorough scope (flows of length 7, 8, 2-result / state-changing request) is sampled below.
     rest = []      # the part of the thorough scope that quick only samples
     for L in range(0, 9):
         for kind in KINDS_FILL:
@@ -982,7 +1066,7 @@ def gen_cases(ctx):
                     for n in range(1, 6):
                         for buf in ("bi", "bo"):
                             for yor in (False, True):
-                                if thorough or (plain and L <= 7):
+                                if thorough or (plain and L <= 6):
                                     for mask in range(1 << L):
                                         c = _base(kind, k, mut, hr, n, buf, reset, yor)
                                         c.update(op="ops", n=L, mask=mask)
@@ -990,7 +1074,7 @@ def gen_cases(ctx):
                                 elif L >= 3:
                                     rest.append((kind, k, mut, hr, reset, n, buf, yor, L))
     if not thorough:
-        for _ in range(9000):
+        for _ in range(12000):
             kind, k, mut, hr, reset, n, buf, yor, L = rng.choice(rest)
             c = _base(kind, k, mut, hr, n, buf, reset, yor)
             c.update(op="ops", n=L, mask=rng.randrange(1 << L))
@@ -1114,7 +1198,7 @@ def shrink(case):
 
 
 # ---- MANIFEST texts ------------------------------------------------------------------------
-LEVEL_TEXT = ("Lean 4 theorems about a transcribed model of FillRequest (__init__, fill, request, the four run loops), "
+LEVEL_TEXT = ("Lean 4 theorems about a transcribed model of FillRequest (__init__, fill, request, reset, the four run loops), "
               "FillRequestSeq and Split's fill/request schedule, for an abstract wrapped element, every block size, every "
               "flow and every history of fill/request calls (no bound): run equals the block specification, any request "
               "schedule closed by a request yields what run yields (also as driven by Split, any Split block size), every "
@@ -1122,7 +1206,11 @@ LEVEL_TEXT = ("Lean 4 theorems about a transcribed model of FillRequest (__init_
               "the input buffer), buffers are empty after request and bounded between requests. The model is tied to /repo "
               "by a correspondence check that enumerates every subset of request points for flows up to length 8 (thorough; "
               "7 + samples in quick; all flag combinations, bufsize 1..5) and Split bufsizes around a FillRequest branch, "
-              "plus a direct block-by-block Python reference oracle and a watchdog on the real code.")
+              "plus a direct block-by-block Python reference oracle and step/wall-clock watchdogs on the real code. An extended "
+              "model covers wrapped elements that raise LenaStopFill (Split yields the block results of the accepted values; "
+              "LenaStopFill escapes request() only through the input buffer), generator objects of the element (the adapter "
+              "of /repo keeps none; one that keeps them reports the element's present state: eager evaluation is required) and "
+              "FillRequest.reset() in the middle of a history (block boundaries do not move).")
 LEVEL_NOTE = ("Trusted: Lean kernel (+ propext, Classical.choice, Quot.sound), the hand transcription validated by the "
               "exhaustive-in-scope correspondence run, iterator semantics of islice/chain as transcribed, the JSON protocol. "
               "Real termination is modelled by totality and watched by a per-case timeout.")
